@@ -569,3 +569,129 @@ func ruleR03e(c *Ctx) {
 	}
 	c.floor("R03e", "assignments of the autoescape mode", 1, n)
 }
+
+// R03f: every template is registered with the namespace declaration of its own file (its autoescape
+// attribute is that file's), never with a node remembered from another file.
+func ruleR03f(c *Ctx) {
+	p := c.pkg("template")
+	fd := c.mustFunc("template", "Registry.Add")
+	if p == nil || fd == nil {
+		return
+	}
+	info := p.TypesInfo
+	tmplObj := p.Types.Scope().Lookup("Template")
+	if tmplObj == nil {
+		c.fatalf("anchor: template.Template not found")
+		return
+	}
+	// ownBody: the symbols bound by a type switch over the elements of the file parameter's own Body
+	ownBody := map[types.Object]bool{}
+	params := map[types.Object]bool{}
+	for _, fl := range fd.Type.Params.List {
+		for _, nm := range fl.Names {
+			params[info.Defs[nm]] = true
+		}
+	}
+	ast.Inspect(fd.Body, func(x ast.Node) bool {
+		rs, ok := x.(*ast.RangeStmt)
+		if !ok || rs.Value == nil {
+			return true
+		}
+		se, ok := ast.Unparen(rs.X).(*ast.SelectorExpr)
+		if !ok {
+			return true
+		}
+		base, ok := se.X.(*ast.Ident)
+		if !ok || !params[info.Uses[base]] {
+			return true
+		}
+		vid, ok := rs.Value.(*ast.Ident)
+		if !ok {
+			return true
+		}
+		elem := info.Defs[vid]
+		ast.Inspect(rs.Body, func(y ast.Node) bool {
+			ts, ok := y.(*ast.TypeSwitchStmt)
+			if !ok {
+				return true
+			}
+			as, ok := ts.Assign.(*ast.AssignStmt)
+			if !ok || len(as.Rhs) != 1 {
+				return true
+			}
+			ta, ok := as.Rhs[0].(*ast.TypeAssertExpr)
+			if !ok {
+				return true
+			}
+			sid, ok := ast.Unparen(ta.X).(*ast.Ident)
+			if !ok || info.Uses[sid] != elem {
+				return true
+			}
+			for _, cc := range ts.Body.List {
+				if o := info.Implicits[cc]; o != nil {
+					ownBody[o] = true
+				}
+			}
+			return true
+		})
+		return true
+	})
+	n := 0
+	ast.Inspect(fd.Body, func(x ast.Node) bool {
+		cl, ok := x.(*ast.CompositeLit)
+		if !ok {
+			return true
+		}
+		tv, ok := info.Types[cl]
+		if !ok || !types.Identical(tv.Type, tmplObj.Type()) {
+			return true
+		}
+		st := tmplObj.Type().Underlying().(*types.Struct)
+		for i, el := range cl.Elts {
+			var fv *types.Var
+			val := el
+			if kv, ok := el.(*ast.KeyValueExpr); ok {
+				if id, ok := kv.Key.(*ast.Ident); ok {
+					fv, _ = info.Uses[id].(*types.Var)
+				}
+				val = kv.Value
+			} else if i < st.NumFields() {
+				fv = st.Field(i)
+			}
+			if fv == nil {
+				continue
+			}
+			if _, tn, ok := relPkgOfType(fv.Type()); !ok || tn != "NamespaceNode" {
+				continue
+			}
+			n++
+			id, isID := ast.Unparen(val).(*ast.Ident)
+			good := isID
+			if isID {
+				obj := info.Uses[id]
+				// every assignment to the variable takes the node from this file's own body (a type-switch binding)
+				ast.Inspect(fd.Body, func(y ast.Node) bool {
+					as, ok := y.(*ast.AssignStmt)
+					if !ok {
+						return true
+					}
+					for j, l := range as.Lhs {
+						li, ok := l.(*ast.Ident)
+						if !ok || (info.Uses[li] != obj && info.Defs[li] != obj) || j >= len(as.Rhs) {
+							continue
+						}
+						ri, plain := ast.Unparen(as.Rhs[j]).(*ast.Ident)
+						if !plain || !ownBody[info.Uses[ri]] {
+							good = false
+						}
+					}
+					return true
+				})
+			}
+			c.check(good, "R03f", "template.Registry.Add namespace-of-own-file", cl.Pos(), "the template is registered with the namespace node found in its own file",
+				"the template is registered with a namespace node that is not simply the one declared in its own file: a file inherits the autoescape attribute of another file with the same namespace name")
+		}
+		return true
+	})
+	c.floor("R03f", "template registrations", 1, n)
+}
